@@ -46,6 +46,29 @@ def cases(draw, tier, kind):
     return {'formula': f, 'vars': vs, 'trace': tr, 'tape': draw(TAPE), 'kind': kind}
 
 
+LOOKALIKE = ['x', 'y', 'Gx', 'Fx', 'Ox', 'Hx', 'Xx', 'Yx', 'notx', 'xUy', 'xSy', 'xandy', 'Gy', 'alwaysx', 'sXx', 'x/y', 'x.y']
+
+
+@st.composite
+def lookalike_cases(draw, tier):
+    """Variables whose names are an operator spelling glued to another variable name (Gx, notx, xUy, x/y): the variant
+    'G x' must stay 'always x' even when a variable Gx occurs in the same specification."""
+    k = draw(st.integers(1, 3))
+    extra = draw(st.lists(st.sampled_from(LOOKALIKE[2:]), min_size=k, max_size=k, unique=True))
+    vs = ['x', 'y'] + extra
+    f, _ = draw(F.formulas(FULL.copy(max_depth=3, var_pool=tuple(vs), nvars=len(vs)), variables=vs))
+    # make sure a look-alike variable really occurs next to its look-alike construct
+    g = ('pred', '>=', ('var', draw(st.sampled_from(extra))), ('const', 1.0))
+    op = draw(st.sampled_from(['always', 'eventually', 'once', 'historically', 'next', 'prev', 'not']))
+    hx = ('un', op, ('var', draw(st.sampled_from(['x', 'y']))))
+    f = ('bin', draw(st.sampled_from(['and', 'or', 'implies'])), draw(st.sampled_from([hx, ('bin', 'until', ('var', 'x'), ('var', 'y'))])),
+         ('bin', draw(st.sampled_from(['and', 'or'])), g, f))
+    if draw(st.booleans()):
+        f = ('bin', 'and', f[3], f[2])
+    n = draw(F.trace_lengths(6))
+    return {'formula': f, 'vars': vs, 'trace': draw(F.traces(vs, n=n)), 'tape': draw(TAPE), 'kind': 'dt_off'}
+
+
 @st.composite
 def unless_cases(draw, tier):
     prof = FULL.copy(max_depth=3)
@@ -224,6 +247,7 @@ def cand_unless(case):
 
 
 LANES = [
+    Lane('lookalike', lambda tier: lookalike_cases(tier), check, 1200, 15000, candidates),
     Lane('dt_off', lambda tier: cases(tier, 'dt_off'), check, 4000, 60000, candidates),
     Lane('dt_on', lambda tier: cases(tier, 'dt_on'), check, 2000, 30000, candidates),
     Lane('unless', lambda tier: unless_cases(tier), check_unless, 1000, 15000, cand_unless),
